@@ -2,9 +2,11 @@ package props
 
 import (
 	"fmt"
+	"runtime"
 	"strings"
 
 	"github.com/miekg/dns"
+	"github.com/semihalev/sdns/verifx/verifsync"
 
 	"verifsim/kit"
 )
@@ -44,6 +46,17 @@ func init() {
 
 func runC10(sc *IngScenario, tr *kit.Trace) *kit.Result {
 	res := kit.NewResult()
+	if sc.Perturb != 0 && sc.PackGap {
+		// Other goroutines may run between the moment a reply's pooled pack state goes back
+		// to its pool and whatever the writer does next with the bytes it was given.
+		prng := kit.NewRNG(sc.Perturb ^ 0x5bd1e995)
+		verifsync.AfterPackRelease = func() {
+			for i, n := 0, prng.Intn(3); i < n; i++ {
+				runtime.Gosched()
+			}
+		}
+		defer func() { verifsync.AfterPackRelease = nil }()
+	}
 	kit.Bubble(func() {
 		x := execIng(sc, tr, res)
 		if x == nil || res.Viol != nil {
